@@ -467,12 +467,33 @@ def rule_x10(text, log, ty):
         return new
     t = re.sub(r'\b(u16|u32|u64|u128)::from_(le|be)_bytes\(', rep_from, text)
 
-    def rep_to(mm):
-        new = '__verif_%s_to_%s_bytes(%s)' % (ty, mm.group(2), mm.group(1))
-        log.append({'rule': 'X10', 'before': mm.group(0), 'after': new})
-        return new
+    t = re.sub(r'\b(u16|u32|u64|u128)::to_(le|be)_bytes\(', lambda mm: (log.append({'rule': 'X10', 'before': mm.group(0), 'after': '__verif_%s_to_%s_bytes(' % (mm.group(1), mm.group(2))}) or '__verif_%s_to_%s_bytes(' % (mm.group(1), mm.group(2))), t)
     if ty:
-        t = re.sub(r'\b([A-Za-z_][A-Za-z0-9_.\[\]]*|\([^()]*\))\.to_(le|be)_bytes\(\)', rep_to, t)
+        # method form `<recv>.to_le_bytes()`: the receiver is found by walking back over a balanced (...) group and/or a path/literal
+        while True:
+            m = mask(t)
+            mm = re.search(r'\.to_(le|be)_bytes\(\)', m)
+            if not mm:
+                break
+            k = mm.start()
+            j = k
+            if j > 0 and m[j - 1] == ')':
+                d = 0
+                while j > 0:
+                    j -= 1
+                    if m[j] == ')':
+                        d += 1
+                    elif m[j] == '(':
+                        d -= 1
+                        if d == 0:
+                            break
+            while j > 0 and (m[j - 1].isalnum() or m[j - 1] in '_.[]:'):
+                j -= 1
+            recv = t[j:k]
+            lit = re.fullmatch(r'\d+(u16|u32|u64|u128)', recv.strip())
+            new = '__verif_%s_to_%s_bytes(%s)' % (lit.group(1) if lit else ty, mm.group(1), recv)
+            log.append({'rule': 'X10', 'before': norm(t[j:mm.end()]), 'after': norm(new)})
+            t = t[:j] + new + t[mm.end():]
     return t
 
 
@@ -976,6 +997,11 @@ def build_unit(template_text, expansions, twin=False):
                 meta['rules'].append({'rule': 'X11', 'fn': " / ".join(path), 'before': before, 'after': norm(text[:body_open(text)])})
             degraded = []
             text0 = text
+            if depmode and "".join(sections['sig']).strip() and body_open(text) >= 0 and not sections['hoist']:
+                # a function of a dependency include: only its contract is used here (callers are checked against it); its body
+                # is verified by the unit that owns it, so it is not verified again
+                sections = {'sig': sections['sig'], 'loops': {}, 'at': [], 'attr': sections['attr'] + ['#[verifier::external_body]'], 'hoist': []}
+                flags = dict(flags, notwin=True)
             text = inject(text, sections, twin=twin and 'notwin' not in flags, ret=flags.get('ret', 'r'), degraded=degraded)
             if degraded:
                 # hints may build on one another (ghost lets): when one loses its anchor, all hints of this function are
